@@ -59,21 +59,44 @@ fn find(addr: usize, width: usize) -> Option<(Rc<RefCell<dyn MmioDev>>, usize, &
     })
 }
 
-/// `Hal::mmio_phys_to_virt`: PCI BAR regions are windows registered with their device address.
+/// A window nobody registered: accesses are logged as strays of that window.
+pub struct AdhocDev {
+    pub pa: u64,
+    pub page_off: usize,
+}
+impl MmioDev for AdhocDev {
+    fn read(&mut self, off: usize, width: u8) -> u64 {
+        let off = off as i64 - self.page_off as i64;
+        with_world(|w| w.reg(json!({"e":"M","sp":"adhoc","rw":"r","off":off,"w":width,"v":"0x0","vl":[0,0,0,0],"pa":hex(self.pa),"pal":limbs(self.pa,4)})));
+        0
+    }
+    fn write(&mut self, off: usize, width: u8, v: u64) {
+        let off = off as i64 - self.page_off as i64;
+        with_world(|w| w.reg(json!({"e":"M","sp":"adhoc","rw":"w","off":off,"w":width,"v":hex(v),"vl":limbs(v,4),"pa":hex(self.pa),"pal":limbs(self.pa,4)})));
+    }
+}
+
+/// `Hal::mmio_phys_to_virt`: PCI BAR regions are windows registered with their device address;
+/// anything else gets an ad-hoc window (same offset within a page), so that what the transport
+/// does with a region it should not have mapped is still observed.
 pub fn phys_to_virt(paddr: u64, size: usize) -> NonNull<u8> {
     let r = WINDOWS.with(|w| {
         for win in w.borrow().iter() {
-            if win.pa != 0 && paddr >= win.pa && paddr + size as u64 <= win.pa + win.size as u64 {
+            if win.pa != 0 && paddr >= win.pa && paddr.checked_add(size as u64).map(|e| e <= win.pa + win.size as u64).unwrap_or(false) {
                 return Some((win.base + (paddr - win.pa) as usize) as *mut u8);
             }
         }
         None
     });
-    with_world(|w| w.reg(json!({"e":"PhysToVirt","pa":hex(paddr),"pal":limbs(paddr,4),"size":size,"sizel":limbs(size as u64,4),"mapped":r.is_some()})));
+    with_world(|w| w.reg(json!({"e":"PhysToVirt","pa":hex(paddr),"pal":limbs(paddr,4),"sizel":limbs(size as u64,4),"mapped":r.is_some()})));
     match r {
         Some(p) => NonNull::new(p).unwrap(),
-        // an address nobody may touch: accesses through it are reported as strays
-        None => NonNull::new(0x10 as *mut u8).unwrap(),
+        None => {
+            let page_off = (paddr & 0xfff) as usize;
+            let win = std::cmp::min(size, 0x10000) + page_off + 64;
+            let base = map(win, Rc::new(RefCell::new(AdhocDev { pa: paddr, page_off })), "adhoc", 0);
+            NonNull::new(unsafe { base.add(page_off) }).unwrap()
+        }
     }
 }
 
